@@ -101,10 +101,14 @@ package keeper
 //@   ensures len(result.Address) == 0 || (old(bigv[amount.i]) > 0 && valHas[bytes(addr)] && bytes(result.Address) == bytes(addr) && result.StakedTokens.i != nil && bigv[result.StakedTokens.i] == valStake[bytes(addr)] && valStake[bytes(addr)] >= 0)
 //@   ensures forall p int {bigv[p]} :: isold(p) ==> bigv[p] == old(bigv[p])
 
+// removing tokens re-indexes the node: the entry under the OLD power goes first, whatever the amount
 //@ func (Keeper).removeValidatorTokens
-//@   trusted call event: removes tokens from the record (index maintenance under C21)
-//@   modifies removeN, removedAmt, bigv
-//@   ensures removeN == old(removeN) + 1 && removedAmt == old(bigv[tokensToRemove.i])
+//@   props C21,C22,C19
+//@   modifies bigv, idxDelN, lastIdxDelAddr, lastIdxDelPower, lastSetVal, lastSetValStake, setValN, lastSetValAddr, idxSetN, lastIdxSetAddr, lastIdxSetPower, uqSetN, lastUqSetAddr, kvHas, kvVal
+//@   logs removeN == old(removeN) + 1
+//@   logs removedAmt == old(bigv[tokensToRemove.i])
+//@   ensures [old-entry-removed] idxDelN == old(idxDelN) + 1 && lastIdxDelAddr == old(bytes(v.Address)) && lastIdxDelPower == go_div(old(bigv[v.StakedTokens.i]), 1000000)
+//@   ensures [record-rewritten] result1 == nil ==> setValN == old(setValN) + 1 && lastSetValStake == old(bigv[v.StakedTokens.i]) - old(bigv[tokensToRemove.i])
 //@   ensures result1 == nil ==> result0.StakedTokens.i != nil && bigv[result0.StakedTokens.i] == old(bigv[v.StakedTokens.i]) - old(bigv[tokensToRemove.i]) && result0.Address == v.Address
 //@   ensures forall p int {bigv[p]} :: isold(p) ==> bigv[p] == old(bigv[p])
 
@@ -174,13 +178,55 @@ package keeper
 //@ ghost lastSetValStake int
 //@ ghost setValN int
 //@ ghost lastSetValAddr Bytes
+// ---- C21: lookup indexes are maintained with the record -----------------------------------------
+// call events of the index writers: entry (power, address) written to / removed from the
+// staked-by-power index; address written to the unstaking queue
+//@ ghost idxSetN int
+//@ ghost lastIdxSetAddr Bytes
+//@ ghost lastIdxSetPower int
+//@ ghost idxDelN int
+//@ ghost lastIdxDelAddr Bytes
+//@ ghost lastIdxDelPower int
+//@ ghost uqSetN int
+//@ ghost lastUqSetAddr Bytes
+// writing a node record: the record is stored (call event) and the staked-by-power index gets
+// the entry (current power, address) exactly when the node is staked and not jailed; the
+// unstaking queue gets the node exactly when it is unstaking
 //@ func (Keeper).SetValidator
-//@   trusted call event only: records the validator written (store + codec effects are not modelled here)
-//@   modifies lastSetVal, lastSetValStake, setValN, lastSetValAddr
-//@   ensures lastSetVal == validator && lastSetValStake == old(bigv[validator.StakedTokens.i]) && setValN == old(setValN) + 1 && lastSetValAddr == bytes(validator.Address)
+//@   props C21
+//@   modifies idxSetN, lastIdxSetAddr, lastIdxSetPower, uqSetN, lastUqSetAddr, kvHas, kvVal
+//@   logs lastSetVal == validator
+//@   logs lastSetValStake == old(bigv[validator.StakedTokens.i])
+//@   logs setValN == old(setValN) + 1
+//@   logs lastSetValAddr == bytes(validator.Address)
+//@   ensures [power-index-iff-staked-unjailed] validator.Status == 2 && !validator.Jailed ==> idxSetN == old(idxSetN) + 1 && lastIdxSetAddr == old(bytes(validator.Address)) && lastIdxSetPower == go_div(old(bigv[validator.StakedTokens.i]), 1000000)
+//@   ensures [no-power-entry-otherwise] !(validator.Status == 2 && !validator.Jailed) ==> idxSetN == old(idxSetN)
+//@   ensures [queue-iff-unstaking] validator.Status == 1 ==> uqSetN == old(uqSetN) + 1 && lastUqSetAddr == old(bytes(validator.Address))
+//@   ensures [no-queue-entry-otherwise] validator.Status != 1 ==> uqSetN == old(uqSetN)
+//@ func (Keeper).MarshalValidator
+//@   trusted codec wrapper: reads the record, returns fresh bytes
+//@   pure_fn
+// the key of a node in the staked-by-power index: a function of its consensus power and address
+//@ pure rankKey(power int, addr Bytes) Bytes
+//@ func x/nodes/types.KeyForValidatorInStakingSet
+//@   trusted byte layout (prefix, big-endian power, inverted address): a function of the node's power and address
+//@   pure_fn
+//@   ensures result != nil && bytes(result) == rankKey(go_div(bigv[validator.StakedTokens.i], 1000000), bytes(validator.Address))
+//@ func (Keeper).SetStakedValidator
+//@   props C21
+//@   modifies kvHas, kvVal
+//@   logs idxSetN == old(idxSetN) + 1
+//@   logs lastIdxSetAddr == bytes(validator.Address)
+//@   logs lastIdxSetPower == go_div(old(bigv[validator.StakedTokens.i]), 1000000)
+//@   ensures [entry-written] kvHas[ctxStore(ctx, k.storeKey)] == old(kvHas[ctxStore(ctx, k.storeKey)])[rankKey(go_div(old(bigv[validator.StakedTokens.i]), 1000000), old(bytes(validator.Address))) := true]
 
 //@ func (Keeper).deleteValidatorFromStakingSet
-//@   trusted KV-store effect only (index maintenance, see C21): no Go object visible to the caller is modified
+//@   props C21
+//@   modifies kvHas, kvVal
+//@   logs idxDelN == old(idxDelN) + 1
+//@   logs lastIdxDelAddr == bytes(validator.Address)
+//@   logs lastIdxDelPower == go_div(old(bigv[validator.StakedTokens.i]), 1000000)
+//@   ensures [entry-removed] kvHas[ctxStore(ctx, k.storeKey)] == old(kvHas[ctxStore(ctx, k.storeKey)])[rankKey(go_div(old(bigv[validator.StakedTokens.i]), 1000000), old(bytes(validator.Address))) := false]
 //@ func (Keeper).deleteValidatorForChains
 //@   trusted KV-store effect only (index maintenance, see C21): no Go object visible to the caller is modified
 //@ ghost delValN int
@@ -210,7 +256,7 @@ package keeper
 // time; the stake is the larger of current and requested; output address / delegators follow
 // the feature flags; chains and service URL are taken from the message.
 //@ func (Keeper).EditStakeValidator
-//@   props C23,C19,C12,C25
+//@   props C23,C21,C19,C12,C25
 //@   modifies all
 //@   ensures [identity] result == nil ==> lastSetVal.Address == currentValidator.Address && lastSetVal.PublicKey == currentValidator.PublicKey && lastSetVal.Jailed == currentValidator.Jailed && lastSetVal.Status == currentValidator.Status && lastSetVal.UnstakingCompletionTime == currentValidator.UnstakingCompletionTime
 //@   ensures [stake] result == nil ==> lastSetValStake == max(old(bigv[currentValidator.StakedTokens.i]), old(bigv[amount.i]))
@@ -219,6 +265,7 @@ package keeper
 //@   ensures [delegators-kept] result == nil && !((featAt("NCUST", ctxHeight(ctx)) || tm3()) && (featAt("RewardDelegators", ctxHeight(ctx)) || tm3())) ==> lastSetVal.RewardDelegators == currentValidator.RewardDelegators
 //@   ensures [bump-to-pool] result == nil && old(bigv[amount.i]) > old(bigv[currentValidator.StakedTokens.i]) ==> bankA2MN == old(bankA2MN) + 1 && bankA2MFrom == pkAddr(signer) && singleAmt(bankA2MCoins) == old(bigv[amount.i]) - old(bigv[currentValidator.StakedTokens.i])
 //@   ensures [no-bump-no-coins] result == nil && old(bigv[amount.i]) <= old(bigv[currentValidator.StakedTokens.i]) ==> bankA2MN == old(bankA2MN)
+//@   ensures [old-power-entry-removed] result == nil ==> idxDelN == old(idxDelN) + 1 && lastIdxDelAddr == old(bytes(currentValidator.Address)) && lastIdxDelPower == go_div(old(bigv[currentValidator.StakedTokens.i]), 1000000)
 //@   ensures [jail-period-kept] result == nil && old(siHas[bytes(currentValidator.Address)]) ==> siHas[bytes(currentValidator.Address)] && siJailedUntil[bytes(currentValidator.Address)] == old(siJailedUntil[bytes(currentValidator.Address)])
 //@   ensures [no-outflow] bankSendN == old(bankSendN) && bankBurnN == old(bankBurnN)
 
@@ -307,9 +354,11 @@ package keeper
 //@   pure_fn
 //@   ensures result.UnstakingTime == nUnstakingTime(ctx)
 //@ func (Keeper).BeginUnstakingValidator
-//@   props C24,C19,C12
-//@   modifies lastSetVal, lastSetValStake, setValN, lastSetValAddr
+//@   props C24,C21,C19,C12
+//@   modifies lastSetVal, lastSetValStake, setValN, lastSetValAddr, idxSetN, lastIdxSetAddr, lastIdxSetPower, uqSetN, lastUqSetAddr, kvHas, kvVal, idxDelN, lastIdxDelAddr, lastIdxDelPower
 //@   ensures [record] setValN == old(setValN) + 1 && lastSetVal.Status == 1 && lastSetVal.Address == validator.Address && lastSetValStake == old(bigv[validator.StakedTokens.i]) && lastSetVal.Jailed == validator.Jailed && lastSetVal.OutputAddress == validator.OutputAddress
+//@   ensures [power-entry-removed] idxDelN == old(idxDelN) + 1 && lastIdxDelAddr == old(bytes(validator.Address)) && lastIdxDelPower == go_div(old(bigv[validator.StakedTokens.i]), 1000000) && idxSetN == old(idxSetN)
+//@   ensures [queued-for-unstaking] uqSetN == old(uqSetN) + 1 && lastUqSetAddr == old(bytes(validator.Address))
 //@   ensures [due-time] timeIsZero(validator.UnstakingCompletionTime) ==> unixNano(lastSetVal.UnstakingCompletionTime) == ctxBlockTimeNs(ctx) + nUnstakingTime(ctx)
 //@   ensures [due-time-kept] !timeIsZero(validator.UnstakingCompletionTime) ==> lastSetVal.UnstakingCompletionTime == validator.UnstakingCompletionTime
 //@ func (Keeper).ValidateValidatorFinishUnstaking
@@ -322,7 +371,9 @@ package keeper
 //@ func (Keeper).deleteUnstakingValidator
 //@   trusted KV-store effect only (unstaking queue maintenance, see C21): no Go object visible to the caller is modified
 //@ func (Keeper).SetUnstakingValidator
-//@   trusted KV-store effect only (unstaking queue maintenance, see C21): no Go object visible to the caller is modified
+//@   trusted call event: the node is appended to the unstaking-queue entry of its completion time (store + codec not modelled)
+//@   modifies uqSetN, lastUqSetAddr
+//@   ensures uqSetN == old(uqSetN) + 1 && lastUqSetAddr == bytes(val.Address)
 //@ func (Keeper).DeleteWaitingValidator
 //@   trusted KV-store effect only: clears the waiting marker
 //@   modifies valWaiting
@@ -344,7 +395,7 @@ package keeper
 //@ func (Keeper).FinishUnstakingValidator
 //@   props C24,C19,C12
 //@   requires validator.Status == 1
-//@   modifies bankSendN, bankSendTo, bankSendFrom, bankSendCoins, bankSendOK, lastSetVal, lastSetValStake, setValN, lastSetValAddr, bigv
+//@   modifies bankSendN, bankSendTo, bankSendFrom, bankSendCoins, bankSendOK, lastSetVal, lastSetValStake, setValN, lastSetValAddr, idxSetN, lastIdxSetAddr, lastIdxSetPower, uqSetN, lastUqSetAddr, kvHas, kvVal, bigv
 //@   ensures [bigv-kept] forall p int {bigv[p]} :: isold(p) ==> bigv[p] == old(bigv[p])
 //@   ensures [returns-stake-once] bankSendN == old(bankSendN) + 1 && bankSendFrom == "staked_tokens_pool" && singleAmt(bankSendCoins) == old(bigv[validator.StakedTokens.i])
 //@   ensures [to-output-address] old(valHas[bytes(validator.Address)]) ==> bankSendTo == ite(old(valOutNil[bytes(validator.Address)]), bytes(validator.Address), old(valOut[bytes(validator.Address)]))
@@ -510,11 +561,12 @@ package keeper
 //@ ghost jailCallN int
 //@ ghost jailCallAddr Bytes
 //@ func (Keeper).JailValidator
-//@   props C25,C12
-//@   modifies lastSetVal, lastSetValStake, setValN, lastSetValAddr, bigv
+//@   props C25,C21,C12
+//@   modifies lastSetVal, lastSetValStake, setValN, lastSetValAddr, idxSetN, lastIdxSetAddr, lastIdxSetPower, uqSetN, lastUqSetAddr, kvHas, kvVal, bigv, idxDelN, lastIdxDelAddr, lastIdxDelPower
 //@   logs jailCallN == old(jailCallN) + 1
 //@   logs jailCallAddr == bytes(addr)
 //@   ensures [jails-staked-and-unstaking] old(valHas[bytes(addr)]) && !old(valJailedG[bytes(addr)]) && old(valStatusG[bytes(addr)]) != 0 ==> setValN == old(setValN) + 1 && lastSetVal.Jailed && lastSetValAddr == bytes(addr) && lastSetValStake == old(valStake[bytes(addr)]) && lastSetVal.Status == old(valStatusG[bytes(addr)])
+//@   ensures [power-entry-removed-when-jailing] setValN != old(setValN) ==> idxDelN == old(idxDelN) + 1 && lastIdxDelAddr == old(bytes(addr)) && lastIdxDelPower == go_div(old(valStake[bytes(addr)]), 1000000) && idxSetN == old(idxSetN)
 //@   ensures [writes-only-to-jail] setValN != old(setValN) ==> lastSetVal.Jailed && lastSetValAddr == bytes(addr)
 //@   ensures [bigv-kept] forall p int {bigv[p]} :: isold(p) ==> bigv[p] == old(bigv[p])
 
@@ -522,7 +574,7 @@ package keeper
 // the session boundary; no coins move here
 //@ func (Keeper).ForceValidatorUnstake
 //@   props C25,C24,C12
-//@   modifies lastSetVal, lastSetValStake, setValN, lastSetValAddr, bigv, valWaiting, jailCallN, jailCallAddr
+//@   modifies lastSetVal, lastSetValStake, setValN, lastSetValAddr, idxSetN, lastIdxSetAddr, lastIdxSetPower, uqSetN, lastUqSetAddr, kvHas, kvVal, bigv, valWaiting, jailCallN, jailCallAddr, idxDelN, lastIdxDelAddr, lastIdxDelPower
 //@   logs forceN == old(forceN) + 1
 //@   ensures [jailed] jailCallN == old(jailCallN) + 1 && jailCallAddr == bytes(validator.Address)
 //@   ensures [queued] result == nil && valWaiting == old(valWaiting)[bytes(validator.Address) := true]
